@@ -18,10 +18,15 @@ Sub-checks
              Readable n) x all histories of length <= 3 (4 thorough) over the message alphabet (update / error_update /
              reply / changed / error_read / error_change for known parameters, the same for unknown modules and
              parameters, module-only identifiers, `.`, malformed JSON / arity / types, timestamps past / future /
-             missing, other module, custom parameter, unrelated replies, silence) x 7 callback bundles (one with callers waiting for the replies) that together
-             realise every pattern (level in {node, module, parameter, other module, other parameter}) x (updateItem,
-             updateEvent) x {registered before; registered after k messages; unregistered after k messages; raising an
-             exception; raising UnregisterCallback at its 1st / 2nd call; UnregisterCallback at registration}
+             missing, other module, custom parameter, unrelated replies, silence) x 7 callback bundles (one with callers
+             waiting for the replies) that together realise every pattern (level in {node, module, parameter, other
+             module, other parameter}) x (updateItem, updateEvent) x {registered before; registered after k messages;
+             unregistered after k messages; raising an exception; raising UnregisterCallback at its 1st / 2nd call;
+             UnregisterCallback at registration}, and the grouped registrations: several callbacks handed to ONE
+             register_callback call (keyword form / positional form) x key level {None, module, (module, parameter)} x
+             boundary 0, 1 (thorough: 0..depth-1; cache for the key empty / populated) x shape {a one-shot (at its 1st / 2nd call), a
+             raising or a nodeStateChange one-shot member in every position among recording neighbours; two one-shots;
+             one of several / all in one call unregistered at the next boundary}: a member never affects its neighbours
   datatypes  generated nodes with one parameter per catalogue type (vf.catalog.types) x all valid wire values of the
              type (vf.catalog.values) x message kinds x timestamps, and all pairs over the first values (depth 2)
 
@@ -486,28 +491,34 @@ def level_matches(key, mod, par):
 
 class CbSpec:
     """one callback of a pattern: registered at boundary `reg` (0 = before the first message), unregistered at boundary
-    `unreg` (None = never), behaviour: 'record' | 'raise' (every call) | 'oneshot1' / 'oneshot2' (UnregisterCallback at
+    `unreg` (None = never), behaviour: 'record' | 'raise' (every call) | 'raise1' (an exception at its first call only) | 'oneshot1' / 'oneshot2' (UnregisterCallback at
     its 1st / 2nd call)"""
     def __init__(self, level, cbname, reg=0, unreg=None, behaviour='record'):
         self.levelname, self.key = level
         self.cbname, self.reg, self.unreg, self.behaviour = cbname, reg, unreg, behaviour
+        self.group = None           # (group id, style): registered together with the other members in ONE register_callback call
+        self.ungroup = None         # id: unregistered together with the other members carrying the same id in one call
+        self.earlier = ''           # the members registered before this one in the same call (for signatures)
         self.__name__ = cbname      # frappy names a failing callback by its __name__ when logging
         self.calls = []     # (phase 'reg'|'msg', boundary/message index, (module, param, value, timestamp, readerror))
         self.io = None
 
     def pattern(self):
-        return (f'{self.levelname}:{self.cbname}:{self.behaviour}:' +
-                ('before' if self.reg == 0 else 'after-messages') + (':unregistered-midway' if self.unreg is not None else ''))
+        res = (f'{self.levelname}:{self.cbname}:{self.behaviour}:' +
+               ('before' if self.reg == 0 else 'after-messages') + (':unregistered-midway' if self.unreg is not None else ''))
+        if self.group is not None:
+            res += f':one-call-{self.group[1]}:' + (f'after-{self.earlier}' if self.earlier else 'first-of-several')
+        return res
 
     def __call__(self, *args):
         if self.cbname == 'updateItem':
             module, param, item = args
             rec = (module, param, item.value, item.timestamp, item.readerror)
         else:
-            rec = tuple(args)
+            rec = tuple(args)      # updateEvent: (module, param, value, timestamp, readerror); nodeStateChange: (online, state)
         io = self.io
         self.calls.append(('reg' if io.in_op else 'msg', io.pos if io.in_op else io.pos - 1, rec))
-        if self.behaviour == 'raise':
+        if self.behaviour == 'raise' or (self.behaviour == 'raise1' and len(self.calls) == 1):
             raise ValueError('callback failed')
         if (self.behaviour == 'oneshot1' and len(self.calls) == 1) or (self.behaviour == 'oneshot2' and len(self.calls) == 2):
             raise UnregisterCallback()
@@ -516,11 +527,70 @@ class CbSpec:
         return f'<cb {self.pattern()} reg={self.reg} unreg={self.unreg}>'
 
 
-def bundles(depth):
+# shapes of ONE register_callback(key, ...) call with several callbacks (the form proxy.py / router.py / the gui use):
+# ordered members (callback name, behaviour) and what is unregistered one boundary later.  nodeStateChange is the third
+# callback name with an immediate call at registration: its one-shot is a neighbour only, its own calls are not judged.
+UI, UE, NS = 'updateItem', 'updateEvent', 'nodeStateChange'
+GROUP_SHAPES_ONESHOT = (
+    ((UI, 'oneshot1'), (UE, 'record')),
+    ((UE, 'oneshot1'), (UI, 'record')),
+    ((UI, 'record'), (UE, 'oneshot1')),
+    ((UE, 'record'), (UI, 'oneshot1')),
+    ((UI, 'oneshot2'), (UE, 'record')),
+    ((UE, 'record'), (UI, 'oneshot2')),
+)
+GROUP_SHAPES_MIXED = (
+    ((NS, 'oneshot1'), (UI, 'record'), (UE, 'record')),
+    ((UI, 'record'), (NS, 'oneshot1'), (UE, 'record')),
+    ((UI, 'raise1'), (UE, 'record')),
+    ((UI, 'oneshot1'), (UE, 'oneshot1')),
+    ((UI, 'record'), (UE, 'record'), 'unregister-first'),
+    ((UE, 'record'), (UI, 'record'), 'unregister-all-in-one-call'),
+)
+GROUP_LEVELS = LEVELS[:3]        # the three key forms: None, module, (module, parameter)
+
+
+def grouped(shapes, boundaries, tier, salt, levels=None):
+    """for every key level x registration boundary 0 .. depth-1 (empty cache / cache populated by the messages so far) x
+    shape: the members registered in one call - by keyword or positionally (thorough: both; quick: alternating, so that
+    every (shape, level), (shape, boundary) and (level, boundary) pair occurs in both styles)"""
+    res = []
+    gid = 0
+    for li, level in enumerate(levels or GROUP_LEVELS):
+        for k in boundaries:
+            for si, shape in enumerate(shapes):
+                members = [m for m in shape if isinstance(m, tuple)]
+                extra = [m for m in shape if not isinstance(m, tuple)]
+                styles = ('keywords', 'positional') if tier == 'thorough' else (('keywords', 'positional')[(li + k + si + salt) % 2],)
+                for style in styles:
+                    gid += 1
+                    specs = []
+                    for cbname, behaviour in members:
+                        c = CbSpec(level, cbname, reg=k, behaviour=behaviour)
+                        c.group = (gid, style)
+                        c.earlier = '+'.join(f'{x.cbname}:{x.behaviour}' for x in specs)
+                        specs.append(c)
+                    if 'unregister-first' in extra:
+                        specs[0].unreg = k + 1
+                    if 'unregister-all-in-one-call' in extra:
+                        for c in specs:
+                            c.unreg = k + 1
+                            c.ungroup = gid
+                    res += specs
+    return res
+
+
+def group_boundaries(depth, tier):
+    """registration boundaries of the grouped registrations: 0 (nothing cached) and 1 (whatever the first message left in the
+    cache) in the quick tier, every boundary that still has a message after it in the thorough tier"""
+    return (0, 1) if tier == 'quick' else tuple(range(depth))
+
+
+def bundles(depth, tier='quick'):
     """callback bundles; together they realise every (level, cbname, kind, boundary) pattern"""
     B = {}
     lv = [(l, n) for l in LEVELS for n in CBNAMES]
-    B['before'] = [CbSpec(l, n) for l, n in lv]
+    B['before+grouped-oneshot'] = [CbSpec(l, n) for l, n in lv] + grouped(GROUP_SHAPES_ONESHOT, group_boundaries(depth, tier), tier, 0)
     B['after'] = [CbSpec(l, n, reg=k) for l, n in lv for k in range(1, depth + 1)]
     B['unregistered'] = [CbSpec(l, n, unreg=k) for l, n in lv for k in range(1, depth + 1)] + \
                         [CbSpec(l, n, reg=1, unreg=2) for l, n in lv]
@@ -529,13 +599,12 @@ def bundles(depth):
     B['oneshot'] = [CbSpec(l, n, behaviour=b) for l, n in lv for b in ('oneshot1', 'record', 'oneshot2', 'record')]
     B['oneshot-late'] = [CbSpec(l, n, reg=k, behaviour=b) for l, n in lv for k in range(1, depth + 1)
                          for b in ('oneshot1', 'oneshot2')] + [CbSpec(l, n) for l, n in lv]
-
-
-    B['before+pending-requests'] = [CbSpec(l, n) for l, n in lv]
+    B['before+grouped-mixed+pending-requests'] = [CbSpec(l, n) for l, n in lv] + grouped(GROUP_SHAPES_MIXED, group_boundaries(depth, tier), tier, 1)
     return B
 
 
-BUNDLE_NAMES = ('before', 'after', 'unregistered', 'raising', 'oneshot', 'oneshot-late', 'before+pending-requests')
+BUNDLE_NAMES = ('before+grouped-oneshot', 'after', 'unregistered', 'raising', 'oneshot', 'oneshot-late',
+                'before+grouped-mixed+pending-requests')
 # callers waiting for these replies while the history arrives (bundle before+pending-requests): the cache must not depend
 # on whether a reply is somebody's answer or unsolicited
 PENDING = (('reply', 'm:value'), ('changed', 'm:target'), ('reply', 'm'), ('changed', 'm'), ('reply', 'x'))
@@ -637,12 +706,31 @@ def execute(desc, refmodules, msgs, specs, clock, part, case, pending=()):
     lines = [render(m) for m in msgs]
     ops = {}
     io = ScriptIO(lines, ops, clock)
+    groups, ungroups = {}, {}
     for s in specs:
         s.calls = []
         s.io = io
-        ops.setdefault(s.reg, []).append(lambda s=s: client.register_callback(s.key, **{s.cbname: s}))
-        if s.unreg is not None:
+        if s.group is None:
+            ops.setdefault(s.reg, []).append(lambda s=s: client.register_callback(s.key, **{s.cbname: s}))
+        else:
+            members = groups.get(s.group)
+            if members is None:
+                members = groups[s.group] = []
+                if s.group[1] == 'positional':     # the callback name is taken from __name__
+                    ops.setdefault(s.reg, []).append(lambda m=members: client.register_callback(m[0].key, *m))
+                else:
+                    ops.setdefault(s.reg, []).append(
+                        lambda m=members: client.register_callback(m[0].key, **{c.cbname: c for c in m}))
+            members.append(s)
+        if s.unreg is not None and s.ungroup is None:
             ops.setdefault(s.unreg, []).append(lambda s=s: client.unregister_callback(s.key, **{s.cbname: s}))
+        elif s.unreg is not None:
+            members = ungroups.get(s.ungroup)
+            if members is None:
+                members = ungroups[s.ungroup] = []
+                ops.setdefault(s.unreg, []).append(
+                    lambda m=members: client.unregister_callback(m[0].key, **{c.cbname: c for c in m}))
+            members.append(s)
     # at one boundary: unregistrations of earlier callbacks and registrations in list order (reg < unreg always)
     run_receive_loop(client, io)
     part.evaluations += 1
@@ -684,8 +772,14 @@ def execute(desc, refmodules, msgs, specs, clock, part, case, pending=()):
                            f'expected error report {err!r}')
     part.outcomes['cache:' + ','.join(sorted(f'{k[0]}.{k[1]}={"err" if e[2] else "val"}' for k, e in ref.cache.items()))] += 1
     # callbacks
+    memo = {}       # the reference log depends on scope, boundaries and behaviour only - never on the neighbours
     for s in specs:
-        exp = expected_calls(s, effects, len(msgs))
+        if s.cbname not in CBNAMES:
+            continue        # nodeStateChange members are neighbours only
+        mk = (s.key, s.reg, s.unreg, s.behaviour)
+        exp = memo.get(mk)
+        if exp is None:
+            exp = memo[mk] = expected_calls(s, effects, len(msgs))
         res = compare_calls(s, exp, s.calls)
         if res is not None:
             kind = next((m['tag'] for m, e in zip(msgs, effects) if e is not None), 'no-effective-message')
@@ -726,7 +820,7 @@ def shard_histories(shard):
     A = alphabet(tier)
     desc = focus()
     part = core.Part()
-    bdl = bundles(depth)
+    bdl = bundles(depth, tier)
     seen = set()
     with virtual_clock() as clock:
         hists = []
@@ -818,7 +912,8 @@ def dt_bundle(i):
     key = ('g', f'p{i}')
     other = ('g', 'value')
     levels = (('node', None), ('module', 'g'), ('param', key), ('otherparam', other))
-    return [CbSpec(l, n) for l in levels for n in CBNAMES] + [CbSpec(l, n, reg=1) for l in levels for n in CBNAMES]
+    return [CbSpec(l, n) for l in levels for n in CBNAMES] + [CbSpec(l, n, reg=1) for l in levels for n in CBNAMES] + \
+        grouped(GROUP_SHAPES_ONESHOT[:4], (1,), 'thorough', 0, levels[:3])
 
 
 def shard_datatypes(shard):
@@ -869,7 +964,7 @@ def _run_sequential(ctx):
     nspecs = len(dt_specs(tier))
     if not only or 'datatypes' in only:
         ctx.pmap(shard_datatypes, [(i, min(i + PER_NODE, nspecs)) for i in range(0, nspecs, PER_NODE)], name='datatypes')
-    npat = len({s.pattern() + f':{s.reg}:{s.unreg}' for b in bundles(depth).values() for s in b})
+    npat = len({s.pattern() + f':{s.reg}:{s.unreg}' for b in bundles(depth, tier).values() for s in b if s.cbname in CBNAMES})
     ctx.rule = (
         f'enumeration by length (BFS) of all message histories of length <= 3 over an alphabet of {nA} messages (thorough: and of '
         f'length 4 over its first {len(alphabet("quick"))} messages) (update, '
@@ -877,7 +972,9 @@ def _run_sequential(ctx):
         '`.` identifiers; malformed JSON / arity / types; timestamps past / future / missing; other module; custom parameter; '
         f'unrelated replies; silence), each run with 7 callback bundles (one of them with callers waiting for the replies) realising {npat} patterns (level x updateItem/updateEvent x '
         'registered before / after k messages / unregistered after k messages / raising / UnregisterCallback at 1st or 2nd call / at '
-        'registration); datatypes: one generated parameter per catalogue type x every valid wire value x message kind, all histories '
+        'registration; and several callbacks registered in ONE register_callback call - by keyword / positionally, on the three key '
+        'levels, at boundary 0 and 1 (thorough 0..depth-1), a one-shot / raising / nodeStateChange-one-shot member in every position, one or all of them '
+        'unregistered later); datatypes: one generated parameter per catalogue type x every valid wire value x message kind, all histories '
         'of length 1 and (first values x all) of length 2. evaluations = executions of the real __rxthread body (history x '
         'bundle); distinct_nontrivial = histories with at least one effective message; states = distinct reference cache states '
         'reached (summed over shards); transitions = messages delivered + callback invocations')
@@ -900,7 +997,7 @@ def replay(case):
         if case['sub'] == 'history':
             A = alphabet(tier)
             msgs = [A[k] for k in case['history']]
-            execute(focus(), FOCUS, msgs, bundles(history_depth(tier))[case['bundle']], clock, part, case,
+            execute(focus(), FOCUS, msgs, bundles(history_depth(tier), tier)[case['bundle']], clock, part, case,
                     pending=PENDING if case['bundle'].endswith('pending-requests') else ())
         else:
             spec = T.fromjson(case['spec'])
